@@ -133,7 +133,7 @@ func c17(c *wk.Ctx) {
 		idx++
 	}
 	// random texts
-	n := c.Pick(3000, 200000)
+	n := c.Pick(3000, 2000000)
 	pieces := []string{"FLOOD_WAIT_", "PHONE_MIGRATE_", "INTERDC_", "_CALL_ERROR", "_CALL_RICH_ERROR", "FILE_PART_", "_MISSING", "X", "_", "0", "1", "9", "-", "%", "d", "v", " ", "A", "z", "%!", "(", "99999999999"}
 	for k := 0; k < n; k++ {
 		if c.Mine(idx) {
